@@ -94,9 +94,9 @@ int rstr_find(struct rstr *rs, char *s, int n, int *grps, int flg)
 	if (rs->lbeg)
 		end = s;
 	for (r = beg; r <= end; r++) {
-		if (rs->wbeg && r > s && (isword(r - 1) || !isword(r)))
+		if (rs->wbeg && ((r > s && isword(r - 1)) || !isword(r)))
 			continue;
-		if (rs->wend && r[len] && (r + len == s || !isword(r + len - 1) || isword(r + len)))
+		if (rs->wend && (r + len == s || !isword(r + len - 1) || (r[len] && isword(r + len))))
 			continue;
 		if (!match_case(r, rs->str, rs->icase)) {
 			int i;
